@@ -921,10 +921,13 @@ RULE = ("exhaustive: for every configuration {slsqp, cobyla} x {no, non-linear, 
         "0,1,2,3. The driver overwrites ONE array per shape in place, as SciPy does. One case = one configuration + a block of "
         "<= 350 sequences on fresh objects sharing the oracle table, or a chain of 100 (300) random sequences run back to back "
         "on ONE plug-in object and ONE EnsembleEvaluator (start() once per sequence; masked chains alternate between two start "
-        "vectors). Non-trivial = the block contains a sequence with >= 2 requests at >= 2 different points; distinct = "
+        "vectors). A failure stream (slsqp with non-linear constraints, l-bfgs-b; realization_min_success 1 of 2; some perturbed "
+        "runs of one realization return NaN near one pool point while its unperturbed run succeeds; perturbation_min_success "
+        "default and explicit, failing and tolerated) makes the combined function+gradient evaluation differ from the "
+        "functions-only one if the failure mask of the gradient leaks into the value. Non-trivial = the block contains a sequence with >= 2 requests at >= 2 different points; distinct = "
         "distinct (configuration, block).")
 ASSUMPTIONS = [
-    "the ensemble values at a point are an oracle F(x), G(x) (C01/C02's business); with the injected deterministic sampler and the deterministic evaluator they are a function of the point, computed for the table by fresh cache-free EnsembleEvaluator instances",
+    "the ensemble values at a point are an oracle F(x), G(x) (C01/C02's business); with the injected deterministic sampler and the deterministic evaluator they are a function of the point, computed for the table by fresh cache-free EnsembleEvaluator instances: the reference VALUES (objective, constraints) are those of a functions-only evaluation, the reference gradients those of a combined evaluation",
     "pool points are pairwise farther apart than 1e-3(1+|x|), so np.allclose and the evaluator's atol=1e-15 test coincide with equality of pool index (the same free coordinates under another start vector of a masked problem are another point)",
     "requests arrive sequentially (no concurrent calls into the plug-in)",
     "batches are only issued to gradient-free (population) methods; gradient requests for a batch are outside the modelled domain (the code asserts ndim == 1)",
@@ -951,8 +954,9 @@ MANIFEST = {
                    "differential_evolution and the recording wrappers; the oracle table comes from fresh EnsembleEvaluator runs (C01/C02 "
                    "are separate properties). 'Never evaluated again' is stated at the level of optimizer-callback requests (a gradient-"
                    "only request at a point whose functions were not cached makes the evaluator recompute function values internally; "
-                   "the evaluator-level cache reuse is proved separately as C07_evaluator_cache_reuse). NaN->inf for DE and failed "
-                   "realizations are not exercised (C03). The callables return views of the plug-in's caches: a caller that writes into "
+                   "the evaluator-level cache reuse is proved separately as C07_evaluator_cache_reuse). Failed perturbed runs of a "
+                   "realization (tolerated by realization_min_success) are exercised for gradient-based methods; NaN->inf for DE and "
+                   "failed unperturbed runs are not (C03). The callables return views of the plug-in's caches: a caller that writes into "
                    "a returned array corrupts later answers for the same point; SciPy does not, and the check does not either. "
                    "All theorems print 'Closed under the global context'."),
     "technique": "Coq proof (state-machine invariant by induction over request sequences) + exhaustive bounded in-Coq differential correspondence with the real plug-in",
